@@ -69,7 +69,58 @@ pub struct Case {
     pub extract: bool,
     /// Transfer sizes per request, scaled into 0..=request size.
     pub transfers: Vec<Transfer>,
+    /// Buffers in the u32 range (reserved address space that is never
+    /// touched): the simulated kernel only does address arithmetic.
+    #[serde(default)]
+    pub phantom: Option<Vec<PhantomSpec>>,
 }
+
+/// One phantom buffer: its size and (read side) how much of it is filled.
+#[derive(Copy, Clone, Debug, Serialize, Deserialize, PartialEq, Eq)]
+pub struct PhantomSpec {
+    pub size: PhSize,
+    pub fill: u16,
+}
+
+#[derive(Copy, Clone, Debug, Serialize, Deserialize, PartialEq, Eq)]
+pub enum PhSize {
+    Zero,
+    Small(u16),
+    /// Around the most one read/write call transfers (MAX_RW_COUNT).
+    NearRwMax(i16),
+    /// Around 2^31.
+    Near2G(i16),
+    /// `u32::MAX - d`.
+    Near4G(u16),
+    /// Any 32-bit size.
+    Any(u32),
+    /// Beyond 32 bits (destination buffers only): 4 GiB + k * 512 MiB.
+    Beyond4G(u8),
+}
+
+impl PhSize {
+    fn bytes(self, allow_big: bool) -> u64 {
+        match self {
+            PhSize::Zero => 0,
+            PhSize::Small(n) => n as u64,
+            PhSize::NearRwMax(d) => (MAX_RW_COUNT as i64 + d as i64) as u64,
+            PhSize::Near2G(d) => ((1i64 << 31) + d as i64) as u64,
+            PhSize::Near4G(d) => u32::MAX as u64 - d as u64,
+            PhSize::Any(n) => n as u64,
+            PhSize::Beyond4G(k) => {
+                if allow_big {
+                    (1u64 << 32) + (k as u64 % 6) * (512 << 20) + (k as u64 / 6)
+                } else {
+                    u32::MAX as u64 - k as u64
+                }
+            }
+        }
+    }
+}
+
+/// What a single read/write/send/recv call transfers at most (the kernel's
+/// MAX_RW_COUNT, `INT_MAX & PAGE_MASK`): results are 32-bit signed.
+const MAX_RW_COUNT: usize = 0x7fff_f000;
 
 #[derive(Copy, Clone, Debug, Serialize, Deserialize, PartialEq, Eq)]
 pub enum Transfer {
@@ -137,6 +188,23 @@ struct Driver {
     seen: Vec<Seen>,
     errors: Vec<(String, String)>,
     zc_ops: bool,
+    /// Phantom mode: no byte is read or written, the accepted/delivered
+    /// memory is recorded as (address, length) spans in order.
+    phantom: bool,
+    spans: Vec<(usize, usize)>,
+}
+
+fn push_span(spans: &mut Vec<(usize, usize)>, addr: usize, len: usize) {
+    if len == 0 {
+        return;
+    }
+    if let Some(last) = spans.last_mut() {
+        if last.0 + last.1 == addr {
+            last.1 += len;
+            return;
+        }
+    }
+    spans.push((addr, len));
 }
 
 fn source_byte(j: usize) -> u8 {
@@ -172,13 +240,19 @@ impl Driver {
             Transfer::FirstBuffer => first.min(size),
             Transfer::Frac(f) => ((f as usize) * (size + 1)) >> 16,
         };
+        let n = if self.phantom { n.min(MAX_RW_COUNT) } else { n };
         let mut left = n;
         for r in &data_regions {
             if left == 0 {
                 break;
             }
             let take = left.min(r.len);
-            if self.is_write {
+            if self.phantom {
+                push_span(&mut self.spans, r.addr, take);
+                if !self.is_write {
+                    self.delivered += take;
+                }
+            } else if self.is_write {
                 match regions::read_region(r, 0, take) {
                     Some(bytes) => self.stream.extend_from_slice(&bytes),
                     None => self.errors.push(("region".into(), "source region no longer valid".into())),
@@ -315,8 +389,9 @@ impl Property for C10 {
             any::<bool>(),
             any::<bool>(),
             proptest::collection::vec(transfer(), 0..12),
+            proptest::option::weighted(0.12, proptest::collection::vec(phantom_spec(), 1..=8)),
         )
-            .prop_map(move |(op, bufs, mbufs, array, n, offset, flags, zc, extract, transfers)| Case { op: ops[op], bufs, mbufs, array, n, offset, flags, zc, extract, transfers })
+            .prop_map(move |(op, bufs, mbufs, array, n, offset, flags, zc, extract, transfers, phantom)| Case { op: ops[op], bufs, mbufs, array, n, offset, flags, zc, extract, transfers, phantom })
             .boxed()
     }
 
@@ -355,12 +430,18 @@ fn run_case(case: &Case, ctx: &mut Ctx) {
     let fd = world.new_fd();
     let afd = world.fd(fd);
     let mut classes: Vec<&'static str> = Vec::new();
-    let mut driver = Driver { is_write: case.op.is_write(), transfers: case.transfers.clone(), next: 0, stream: Vec::new(), delivered: 0, seen: Vec::new(), errors: Vec::new(), zc_ops: false };
+    let mut driver = Driver { is_write: case.op.is_write(), transfers: case.transfers.clone(), next: 0, stream: Vec::new(), delivered: 0, seen: Vec::new(), errors: Vec::new(), zc_ops: false, phantom: case.phantom.is_some(), spans: Vec::new() };
     let zc = case.zc && matches!(case.op, Op::SendAll | Op::SendAllVectored);
 
     let report = |ctx: &mut Ctx, kind: &str, msg: String| {
         ctx.violation(&format!("C10:{kind}:{:?}", case.op), msg);
     };
+
+    if let Some(specs) = &case.phantom {
+        run_phantom(case, specs, &mut world, afd, &mut driver, ctx);
+        drop(world);
+        return;
+    }
 
     if case.op.is_write() {
         let count = if case.op.vectored() { case.bufs.len() } else { 1 };
@@ -752,3 +833,396 @@ fn run_case(case: &Case, ctx: &mut Ctx) {
     ctx.fingerprint = format!("{:?}|{}|{}|{:x}", case.op, if case.array { "array" } else { "tuple" }, classes.join("|"), crate::common::fnv(&format!("{case:?}")) & 0xffff);
 }
 
+
+// ---------------------------------------------------------------------------
+// Phantom buffers: lengths in the 32-bit range (and totals beyond it).
+//
+// The buffers designate reserved address space (PROT_NONE, never touched by
+// anyone: a10 only passes pointers and lengths on, the simulated kernel only
+// does address arithmetic). The oracle is the same stream oracle as above with
+// bytes replaced by (address, length) spans.
+
+/// One slot of address space per buffer; slots are not adjacent to each other
+/// (a guard gap in between), so spans of different buffers never merge.
+const PH_SLOT: usize = 9 << 30;
+
+fn phantom_base() -> usize {
+    static BASE: std::sync::OnceLock<usize> = std::sync::OnceLock::new();
+    *BASE.get_or_init(|| {
+        let _s = track::scope(track::TAG_HARNESS);
+        let size = PH_SLOT * 8;
+        let p = unsafe { libc::mmap(std::ptr::null_mut(), size, libc::PROT_NONE, libc::MAP_PRIVATE | libc::MAP_ANONYMOUS | libc::MAP_NORESERVE, -1, 0) };
+        assert!(p != libc::MAP_FAILED, "reserving address space for phantom buffers failed");
+        track::add_immortal(p.addr(), p.addr() + size);
+        p.addr()
+    })
+}
+
+fn phantom_slot(k: usize) -> usize {
+    phantom_base() + k * PH_SLOT + 4096
+}
+
+/// Source buffer over untouched address space.
+pub struct Phantom {
+    addr: usize,
+    len: u32,
+}
+
+unsafe impl a10::io::Buf for Phantom {
+    unsafe fn parts(&self) -> (*const u8, u32) {
+        (self.addr as *const u8, self.len)
+    }
+}
+
+/// Destination buffer over untouched address space; capacity may exceed 32
+/// bits (like a `Vec<u8>` with that much spare capacity).
+pub struct PhantomMut {
+    base: usize,
+    cap: u64,
+    len: u64,
+}
+
+unsafe impl a10::io::BufMut for PhantomMut {
+    unsafe fn parts_mut(&mut self) -> (*mut u8, u32) {
+        ((self.base + self.len as usize) as *mut u8, (self.cap - self.len).min(u32::MAX as u64) as u32)
+    }
+    unsafe fn set_init(&mut self, n: usize) {
+        self.len += n as u64;
+    }
+    fn spare_capacity(&self) -> u32 {
+        (self.cap - self.len).min(u32::MAX as u64) as u32
+    }
+    fn has_spare_capacity(&self) -> bool {
+        self.cap > self.len
+    }
+}
+
+fn phantom_spec() -> impl Strategy<Value = PhantomSpec> {
+    (
+        prop_oneof![
+            2 => Just(PhSize::Zero),
+            3 => any::<u16>().prop_map(PhSize::Small),
+            3 => (-3i16..=3).prop_map(PhSize::NearRwMax),
+            2 => (-3i16..=3).prop_map(PhSize::Near2G),
+            4 => (0u16..4).prop_map(PhSize::Near4G),
+            4 => any::<u32>().prop_map(PhSize::Any),
+            2 => any::<u8>().prop_map(PhSize::Beyond4G),
+        ],
+        prop_oneof![3 => Just(0u16), 1 => Just(u16::MAX), 3 => any::<u16>()],
+    )
+        .prop_map(|(size, fill)| PhantomSpec { size, fill })
+}
+
+fn run_phantom(case: &Case, specs: &[PhantomSpec], world: &mut World, afd: &'static a10::AsyncFd, driver: &mut Driver, ctx: &mut Ctx) {
+    let report = |ctx: &mut Ctx, kind: &str, msg: String| {
+        ctx.violation(&format!("C10:{kind}:{:?}", case.op), msg);
+    };
+    let mut classes: Vec<&'static str> = vec!["phantom"];
+    let count = if case.op.vectored() { specs.len().clamp(1, 8) } else { 1 };
+    let zc = case.zc && matches!(case.op, Op::SendAll | Op::SendAllVectored);
+    let fmt_reqs = |seen: &[Seen]| format!("{:?}", seen.iter().map(|s| (s.size, s.n)).collect::<Vec<_>>());
+    // Positional start: far enough below u64::MAX for the total.
+    let start_for = |total: u64| match case.offset {
+        Offset::Current => u64::MAX,
+        Offset::At(o) => o,
+        Offset::NearMax(d) => u64::MAX - total - 1 - d as u64,
+    };
+
+    if case.op.is_write() {
+        let mut bufs: Vec<Phantom> = Vec::new();
+        let mut expected: Vec<(usize, usize)> = Vec::new();
+        let mut originals: Vec<(usize, u32)> = Vec::new();
+        for (k, spec) in specs[..count].iter().enumerate() {
+            let len = spec.size.bytes(false).min(u32::MAX as u64) as u32;
+            let addr = phantom_slot(k);
+            bufs.push(Phantom { addr, len });
+            push_span(&mut expected, addr, len as usize);
+            originals.push((addr, len));
+        }
+        let total: u64 = originals.iter().map(|o| o.1 as u64).sum();
+        if total == 0 {
+            ctx.skipped_steps += 1;
+            ctx.fingerprint = "skipped-empty".into();
+            return;
+        }
+        if total > u32::MAX as u64 {
+            classes.push("total>4GiB");
+        }
+        let start = start_for(total);
+        let positional = !case.op.net() && start != u64::MAX;
+        let (sflags, raw_flags) = send_flags(case.flags);
+        let use_flags = case.op.net() && case.flags != 0;
+        let ident = |p: Phantom| (p.addr, p.len);
+        // Done: Some(buffers) for extract, None otherwise.
+        let result: Result<io::Result<Option<Vec<(usize, u32)>>>, String> = match case.op {
+            Op::WriteAll => {
+                let buf = bufs.pop().unwrap();
+                let mut f = { let _s = track::scope(track::TAG_A10); afd.write_all(buf) };
+                if positional {
+                    f = f.at(start);
+                }
+                if case.extract { drive(world, driver, f.extract()).map(|r| r.map(|b| Some(vec![ident(b)]))) } else { drive(world, driver, f).map(|r| r.map(|()| None)) }
+            }
+            Op::SendAll => {
+                let buf = bufs.pop().unwrap();
+                let mut f = { let _s = track::scope(track::TAG_A10); afd.send_all(buf) };
+                if use_flags {
+                    f = f.flags(sflags);
+                }
+                if zc {
+                    f = f.zc();
+                }
+                if case.extract { drive(world, driver, f.extract()).map(|r| r.map(|b| Some(vec![ident(b)]))) } else { drive(world, driver, f).map(|r| r.map(|()| None)) }
+            }
+            Op::WriteAllVectored | Op::SendAllVectored => {
+                macro_rules! go {
+                    ($t:ident) => {{
+                        if case.op == Op::WriteAllVectored {
+                            let mut f = { let _s = track::scope(track::TAG_A10); afd.write_all_vectored($t) };
+                            if positional {
+                                f = f.at(start);
+                            }
+                            if case.extract { drive(world, driver, f.extract()).map(|r| r.map(|b| Some(b.into_iter().map(ident).collect()))) } else { drive(world, driver, f).map(|r| r.map(|()| None)) }
+                        } else {
+                            let mut f = { let _s = track::scope(track::TAG_A10); afd.send_all_vectored($t) };
+                            if use_flags {
+                                f = f.flags(sflags);
+                            }
+                            if zc {
+                                f = f.zc();
+                            }
+                            if case.extract { drive(world, driver, f.extract()).map(|r| r.map(|b| Some(b.into_iter().map(ident).collect()))) } else { drive(world, driver, f).map(|r| r.map(|()| None)) }
+                        }
+                    }};
+                }
+                with_array!(bufs, count, |t| go!(t))
+            }
+            _ => unreachable!(),
+        };
+        for (k, m) in driver.errors.drain(..) {
+            report(ctx, &k, m);
+        }
+        let zero_at = driver.seen.iter().position(|s| s.n == 0);
+        let accepted: u64 = driver.spans.iter().map(|s| s.1 as u64).sum();
+        match result {
+            Err(e) => {
+                let (k, m) = e.split_once(':').unwrap_or(("stuck", &e));
+                report(ctx, k, format!("{m} (buffers {originals:?}, requests {})", fmt_reqs(&driver.seen)));
+            }
+            Ok(Ok(done)) => {
+                if driver.spans != expected {
+                    let kind = if accepted < total { "ok-before-all-written" } else { "stream-mismatch" };
+                    report(ctx, kind, format!("returned Ok after the kernel accepted {accepted} bytes in {} requests, the inputs total {total} bytes; memory accepted {:x?}, inputs {:x?}; requests (size, transferred): {}", driver.seen.len(), driver.spans, expected, fmt_reqs(&driver.seen)));
+                }
+                if zero_at.is_some() {
+                    report(ctx, "ok-after-zero", "returned Ok although the kernel accepted 0 bytes for a request".into());
+                }
+                if let Some(got) = done {
+                    if got != originals {
+                        report(ctx, "extract-not-original", format!("extract returned {got:x?}, the caller's buffers are {originals:x?}"));
+                    }
+                }
+            }
+            Ok(Err(e)) => {
+                if e.kind() == io::ErrorKind::WriteZero {
+                    if zero_at.is_none() {
+                        report(ctx, "spurious-write-zero", "failed with WriteZero although the kernel never accepted 0 bytes".into());
+                    }
+                    classes.push("write-zero");
+                } else {
+                    report(ctx, "unexpected-error", format!("failed with {e} although the kernel reported no error"));
+                }
+            }
+        }
+        let mut so_far = 0u64;
+        for (k, s) in driver.seen.iter().enumerate() {
+            let want_op = match (case.op, zc) {
+                (Op::WriteAll, _) => abi::OP_WRITE,
+                (Op::WriteAllVectored, _) => abi::OP_WRITEV,
+                (Op::SendAll, false) => abi::OP_SEND,
+                (Op::SendAll, true) => abi::OP_SEND_ZC,
+                (Op::SendAllVectored, false) => abi::OP_SENDMSG,
+                (Op::SendAllVectored, true) => abi::OP_SENDMSG_ZC,
+                _ => unreachable!(),
+            };
+            if s.sqe.opcode != want_op {
+                report(ctx, "continuation-opcode", format!("request {k} uses opcode {} instead of {}", abi::opcode_name(s.sqe.opcode), abi::opcode_name(want_op)));
+            }
+            if !case.op.net() {
+                let want_off = if positional { start + so_far } else { u64::MAX };
+                if s.sqe.off != want_off {
+                    report(ctx, "continuation-offset", format!("request {k} has offset {:#x}, expected {want_off:#x} (start {start:#x} + {so_far} bytes written so far)", s.sqe.off));
+                }
+            } else {
+                let want_flags = if use_flags { raw_flags } else { 0 };
+                if s.sqe.op_flags != want_flags {
+                    report(ctx, "continuation-flags", format!("request {k} carries msg_flags {:#x}, the caller chose {want_flags:#x}", s.sqe.op_flags));
+                }
+            }
+            so_far += s.n as u64;
+        }
+        if so_far > u32::MAX as u64 {
+            classes.push("crossed-4GiB");
+        }
+    } else {
+        let mut bufs: Vec<PhantomMut> = Vec::new();
+        // (base, cap, initial len)
+        let mut model: Vec<(usize, u64, u64)> = Vec::new();
+        for (k, spec) in specs[..count].iter().enumerate() {
+            let cap = spec.size.bytes(true);
+            let len = ((spec.fill as u64) * (cap + 1)) >> 16;
+            let base = phantom_slot(k);
+            bufs.push(PhantomMut { base, cap, len });
+            model.push((base, cap, len));
+        }
+        let capacity: u64 = model.iter().map(|m| m.1 - m.2).sum();
+        if capacity == 0 {
+            ctx.skipped_steps += 1;
+            ctx.fingerprint = "skipped-no-capacity".into();
+            return;
+        }
+        // Target 1..=capacity.
+        let n = (1 + (((case.n as u128) * (capacity as u128)) >> 16).min(capacity as u128 - 1)) as u64;
+        if n > u32::MAX as u64 {
+            classes.push("n>4GiB");
+        }
+        let start = start_for(capacity);
+        let positional = !case.op.net() && start != u64::MAX;
+        let (rflags, raw_flags) = recv_flags(case.flags);
+        let use_flags = case.op.net() && case.flags != 0;
+        let ident = |p: PhantomMut| (p.base, p.cap, p.len);
+        let result: Result<io::Result<Vec<(usize, u64, u64)>>, String> = match case.op {
+            Op::ReadN => {
+                let buf = bufs.pop().unwrap();
+                let mut f = { let _s = track::scope(track::TAG_A10); afd.read_n(buf, n as usize) };
+                if positional {
+                    f = f.from(start);
+                }
+                drive(world, driver, f).map(|r| r.map(|b| vec![ident(b)]))
+            }
+            Op::RecvN => {
+                let buf = bufs.pop().unwrap();
+                let mut f = { let _s = track::scope(track::TAG_A10); afd.recv_n(buf, n as usize) };
+                if use_flags {
+                    f = f.flags(rflags);
+                }
+                drive(world, driver, f).map(|r| r.map(|b| vec![ident(b)]))
+            }
+            Op::ReadNVectored | Op::RecvNVectored => {
+                macro_rules! go {
+                    ($t:ident) => {{
+                        if case.op == Op::ReadNVectored {
+                            let mut f = { let _s = track::scope(track::TAG_A10); afd.read_n_vectored($t, n as usize) };
+                            if positional {
+                                f = f.from(start);
+                            }
+                            drive(world, driver, f).map(|r| r.map(|b| b.into_iter().map(ident).collect()))
+                        } else {
+                            let mut f = { let _s = track::scope(track::TAG_A10); afd.recv_n_vectored($t, n as usize) };
+                            if use_flags {
+                                f = f.flags(rflags);
+                            }
+                            drive(world, driver, f).map(|r| r.map(|b| b.into_iter().map(ident).collect()))
+                        }
+                    }};
+                }
+                with_array!(bufs, count, |t| go!(t))
+            }
+            _ => unreachable!(),
+        };
+        for (k, m) in driver.errors.drain(..) {
+            report(ctx, &k, m);
+        }
+        let mut got = 0u64;
+        let mut eof_before_n = false;
+        for s in &driver.seen {
+            if s.n == 0 && got < n {
+                eof_before_n = true;
+                break;
+            }
+            got += s.n as u64;
+            if got >= n {
+                break;
+            }
+        }
+        let delivered: u64 = driver.spans.iter().map(|s| s.1 as u64).sum();
+        // Sequential fill of the buffers with everything that was delivered.
+        let mut want_spans: Vec<(usize, usize)> = Vec::new();
+        let mut want_model = model.clone();
+        let mut left = delivered;
+        for m in want_model.iter_mut() {
+            let take = left.min(m.1 - m.2);
+            push_span(&mut want_spans, m.0 + m.2 as usize, take as usize);
+            m.2 += take;
+            left -= take;
+        }
+        match result {
+            Err(e) => {
+                let (k, m) = e.split_once(':').unwrap_or(("stuck", &e));
+                report(ctx, k, format!("{m} (buffers (base, capacity, filled) {model:x?}, n {n}, requests {})", fmt_reqs(&driver.seen)));
+            }
+            Ok(Ok(bufs)) => {
+                if delivered < n {
+                    report(ctx, "ok-before-n", format!("returned Ok with {delivered} bytes read, {n} were requested (requests: {})", fmt_reqs(&driver.seen)));
+                }
+                if eof_before_n {
+                    report(ctx, "ok-after-eof", format!("returned Ok although the stream ended (0 bytes) before {n} bytes were read"));
+                }
+                if left > 0 || driver.spans != want_spans {
+                    report(ctx, "content", format!("the kernel was told to put the {delivered} bytes it delivered at {:x?}; filling the caller's buffers (base, capacity, filled) {model:x?} in order means {want_spans:x?}; requests (size, transferred): {}", driver.spans, fmt_reqs(&driver.seen)));
+                } else if bufs != want_model {
+                    report(ctx, "content", format!("the returned buffers (base, capacity, filled) are {bufs:x?}, expected {want_model:x?}"));
+                }
+            }
+            Ok(Err(e)) => {
+                if e.kind() == io::ErrorKind::UnexpectedEof {
+                    if !eof_before_n {
+                        report(ctx, "spurious-eof", format!("failed with UnexpectedEof although the stream did not end before {n} bytes (requests: {})", fmt_reqs(&driver.seen)));
+                    }
+                    classes.push("eof");
+                } else {
+                    report(ctx, "unexpected-error", format!("failed with {e} although the kernel reported no error"));
+                }
+            }
+        }
+        let mut so_far = 0u64;
+        for (k, s) in driver.seen.iter().enumerate() {
+            let want_op = match case.op {
+                Op::ReadN => abi::OP_READ,
+                Op::ReadNVectored => abi::OP_READV,
+                Op::RecvN => abi::OP_RECV,
+                Op::RecvNVectored => abi::OP_RECVMSG,
+                _ => unreachable!(),
+            };
+            if s.sqe.opcode != want_op {
+                report(ctx, "continuation-opcode", format!("request {k} uses opcode {} instead of {}", abi::opcode_name(s.sqe.opcode), abi::opcode_name(want_op)));
+            }
+            if !case.op.net() {
+                let want_off = if positional { start + so_far } else { u64::MAX };
+                if s.sqe.off != want_off {
+                    report(ctx, "continuation-offset", format!("request {k} has offset {:#x}, expected {want_off:#x}", s.sqe.off));
+                }
+            } else {
+                let want_flags = if use_flags { raw_flags } else { 0 };
+                if s.sqe.op_flags != want_flags {
+                    report(ctx, "continuation-flags", format!("request {k} carries msg_flags {:#x}, the caller chose {want_flags:#x}", s.sqe.op_flags));
+                }
+            }
+            so_far += s.n as u64;
+        }
+        if so_far > u32::MAX as u64 {
+            classes.push("crossed-4GiB");
+        }
+    }
+    if driver.seen.len() >= 3 {
+        classes.push(">=2-continuations");
+    }
+    classes.sort();
+    classes.dedup();
+    for c in &classes {
+        ctx.class(c);
+    }
+    ctx.class(&format!("{:?}", case.op));
+    ctx.nontrivial = classes.iter().any(|c| matches!(*c, ">=2-continuations" | "crossed-4GiB"));
+    ctx.fingerprint = format!("{:?}|phantom|{}|{:x}", case.op, classes.join("|"), crate::common::fnv(&format!("{case:?}")) & 0xffff);
+}
